@@ -319,6 +319,20 @@ class TreeFn(Generic[_FnT, _T]):
 class FilterFn(TreeFn):
   """A lazy Map operation that operates on an mappable."""
 
+  def _maybe_call_fn(self, fn_inputs: tuple[_T, ...]) -> bool:
+    """Calls the predicate and decides whether the element is kept."""
+    result = super()._maybe_call_fn(fn_inputs)
+    # The truth test belongs to the call: a result without a truth value is a
+    # failure of this element (skippable), not of the whole iteration.
+    try:
+      (value,) = self._normalize_outputs(result)
+      return bool(value)
+    except Exception as e:
+      raise ValueError(
+          f'The result of the filter {self.fn} has no truth value, got'
+          f' {type(result)}.'
+      ) from e
+
   def iterate(
       self, input_iterator: Iterable[tree.TreeLike]
   ) -> Iterator[tree.TreeLike[_T]]:
